@@ -307,3 +307,24 @@ ADDED11 = {
 for _pid, _extra in ADDED11.items():
     t, text, note, ref = CLAIMED[_pid]
     CLAIMED[_pid] = (t, text + _extra, note, ref)
+ADDED12 = {
+ "C01": " Round 12: the binding methods of a scope (Set, SetNT) store the value under the symbol's own name on every path to a return (C01.set-total).",
+ "C02": " Round 12: the storage of a binary value ([]byte) counts as lisp storage: a builtin writes only into byte slices it allocated, also through the in-place editors of bytes/slices/sort.",
+ "C04": " Round 12: == on two lisp values and map operations keyed by a lisp value are may-panic sites (uncomparable dynamic types) unless one side can only hold comparable types; an exempted construct moved into an unexported helper keeps its exemption when, at every call site, the construct written in the caller's terms is the exempted one.",
+ "C05": " Round 12: the same comparison / hashing sites in the reader and printer closure.",
+ "C06": " Round 12: whatever read_atom returns without error after the integer parser was tried on the token is the parsed int (an integer token never reads as a value of another kind); the keyword marker is found through the predicate a site calls.",
+ "C07": " Round 12: C10.deref-context adopted as C07.deref-deref-context (the deref builtin waits under the evaluation's own context).",
+ "C08": " Round 12: the Stepper variable is assigned in no package initialiser nor in anything one calls (C08.stepper-default): linking the debugger does not put every program into the stepping mode, where tail calls recurse.",
+ "C09": " Round 12: the atom builtin returns a newly allocated Atom holding its argument on every path (C09.constructor); while a mutex released by a plain Unlock is held nothing that can panic is executed (C09.release-on-panic).",
+ "C10": " Round 12: the binder's adapters and the closures registered as builtins write nothing they captured (C10.adapter-state); delivery, done flag and re-deposit are followed into the methods they were moved to.",
+ "C11": " Round 12: C10.ctx adopted as C11.future-ctx (a future's body is stopped only by its creator's context or future-cancel); C20.registry-atomic adopted as C11.update-registry-atomic (Update is one critical section).",
+ "C13": " Round 12: every checked assertion in the collection builtins whose value is used has its ok flag used too, unless the type is already established (C13.ok-flag); the sibling-domain family is recognised by signature and by testing the kind of the argument, so a member that starts accepting everything disagrees with its siblings.",
+ "C16": " Round 12: the REPL gives the typed lines up only after the reader has seen them in that round and did not call them incomplete.",
+ "C17": " Round 12: the parameter binder binds elements of the argument carrier, never the carrier itself with its maker's position (C17.carrier-not-bound); the error of a builtin is re-positioned also when the call was moved into a helper of the evaluator.",
+ "C18": " Round 12: Stepper and the stepping flags are read by no code that runs during evaluation outside the evaluator's stepping sections (helpers that build forms, builtins).",
+ "C19": " Round 12: C03.object adopted as C19.caught-object (catch binds the thrown value on every delivery route, never positioned text nor a module-dependent wrapper).",
+ "C20": " Round 12: the vector handed to reflect's Call is the argument builder's result, carried only through functions that do not write it, and every slot written holds reflect.ValueOf(x) or reflect.Zero(t) as returned (C20.exact-args); every fmt.Errorf of the library that takes an error operand wraps it with %w (C20.chain-kept, shared with C03.wrap).",
+}
+for _pid, _extra in ADDED12.items():
+    t, text, note, ref = CLAIMED[_pid]
+    CLAIMED[_pid] = (t, text + _extra, note, ref)
